@@ -25,7 +25,7 @@ for l in [lines[k] for k in sorted(lines)]:
         if rc == "1":
             hits.append((cid, sig))
         elif rc != "0":
-            hits.append((cid, "exit " + rc))
+            hits.append((cid + "?", "exit " + rc))
     rows.append((m, meta, hits, ""))
 out = ["| change | what it does (one line) | needs | caught by (quick tier; first signature) |", "|---|---|---|---|"]
 missed = []
